@@ -486,6 +486,13 @@ def _thin(e: ast.AST) -> bool:
     if isinstance(e, ast.Attribute):
         return _thin(e.value)
     if isinstance(e, ast.Subscript):
+        # an element / a keyed member / the whole array (`x[i]`, `x["k"]`, `x[:]`) keeps the role of x; a proper slice
+        # (`left[1:]`) is a derived quantity and may legitimately be the sibling (the right edges of contiguous bins)
+        sl = e.slice
+        if isinstance(sl, ast.Slice) and not (sl.lower is None and sl.upper is None and sl.step is None):
+            return False
+        if isinstance(sl, ast.Tuple) and any(isinstance(x, ast.Slice) and not (x.lower is None and x.upper is None and x.step is None) for x in sl.elts):
+            return False
         return _thin(e.value)
     if isinstance(e, ast.Starred):
         return _thin(e.value)
